@@ -503,7 +503,7 @@ outcome_t check_solve(const prog_t& P, const truth_t& T, const start_t& S, const
     }
     if (!(worst > 10.0))
     {
-        out.verdict = verdict_t::borderline(std::string("C04 ") + clause);
+        out.verdict = verdict_t::borderline(std::string("C04/") + clause);
         return out;
     }
 
@@ -541,8 +541,15 @@ outcome_t check_solve(const prog_t& P, const truth_t& T, const start_t& S, const
     }
 
     // known finding F9: LP / rank-deficient QP, verified recession direction of the optimal face, iterate ran away
-    const bool deficient = P.lp || Eigen::FullPivLU<MatrixXd>(P.Q).rank() < P.n;
-    if (deficient && face.kind == c04::face_kind::unbounded && xinf >= 1e6 * (1.0 + xsinf))
+    // ... and every clause that fails is explained by rounding at the scale of the runaway iterate (1e3 * eps * the
+    // magnitude of the terms at x): a residual larger than that has another cause and stays a violation.
+    const bool   deficient = P.lp || Eigen::FullPivLU<MatrixXd>(P.Q).rank() < P.n;
+    const double xeps      = 1e3 * std::numeric_limits<double>::epsilon();
+    const double scale_eq  = P.A.rows() > 0 ? (P.A.cwiseAbs() * x.cwiseAbs() + P.b.cwiseAbs()).maxCoeff() : 0.0;
+    const double scale_in  = P.G.rows() > 0 ? (P.G.cwiseAbs() * x.cwiseAbs() + P.h.cwiseAbs()).maxCoeff() : 0.0;
+    const bool   rounding  = (r_eq <= 10.0 || res_eq <= xeps * scale_eq) && (r_in <= 10.0 || res_in <= xeps * scale_in) &&
+                          (r_fx <= 10.0 || res_fx <= xeps * terms) && (r_opt <= 10.0 || res_opt <= xeps * terms);
+    if (deficient && face.kind == c04::face_kind::unbounded && xinf >= 1e6 * (1.0 + xsinf) && rounding)
     {
         out.verdict = verdict_t::known(F9_SIG, msg);
         return out;
@@ -1126,7 +1133,11 @@ verdict_t check_scase(const scase_t& c, ctx_t& ctx)
     }
     if (ex.status == c04::xstatus::inconclusive)
     {
-        return verdict_t::discard("exact-oracle-inconclusive: " + ex.why);
+        {
+        // (the reason is a free text: kept out of the one-token discard key)
+        ctx.label("exact-oracle-inconclusive: " + ex.why);
+        return verdict_t::discard("exact-oracle-inconclusive");
+    }
     }
     prog_t  P = to_prog(I);
     truth_t T;
